@@ -574,10 +574,26 @@ pub fn generate(profile_name: &str, seed: u64) -> Scenario {
             let k = g.r.range(1, 3);
             let mut seen = 0;
             'outer: for c in sc.clients.iter_mut() {
-                let init = c.init.clone();
+                // which actor does a slot refer to when an op runs? (slots are re-assigned by clone/downgrade/upgrade ops; a
+                // message must not be given an in-handler ask aimed at the very actor it ends up being sent to)
+                let mut cur: Vec<Option<usize>> = c.init.clone();
                 for op in c.ops.iter_mut() {
+                    match &op.op {
+                        Op::CloneSlot { from, to } | Op::Downgrade { from, to } | Op::Upgrade { from, to } => {
+                            let x = cur.get(*from).copied().flatten();
+                            if let Some(c) = cur.get_mut(*to) {
+                                *c = x;
+                            }
+                        }
+                        Op::DropSlot { slot } => {
+                            if let Some(c) = cur.get_mut(*slot) {
+                                *c = None;
+                            }
+                        }
+                        _ => {}
+                    }
                     if let Op::Send { slot, body, .. } = &mut op.op {
-                        if init.get(*slot).copied().flatten() == Some(v) {
+                        if cur.get(*slot).copied().flatten() == Some(v) {
                             seen += 1;
                             if seen == k {
                                 let pos = g.r.below(body.steps.len() as u64 + 1) as usize;
